@@ -54,6 +54,16 @@ struct Case {
     /// (otherwise only get_node — which takes &self — is read after every operation)
     every_step: bool,
     ops: Vec<Op>,
+    /// the graph is not new: this many proofs of unrelated facts were inserted into it before the history starts
+    /// (every fifth of them invalidated again), so that whatever the graph does every so many insertions, or with
+    /// handles beyond some count, happens in the middle of the judged history
+    warm: usize,
+}
+
+/// a count just below a round number: B - r for B in {16, 32, 64, 100, 128, 256, 1000, 1024}, r in 0..=9
+pub fn warm_count(s: &mut Src) -> usize {
+    let b = [64usize, 16, 32, 128, 100, 256, 1000, 1024][s.weighted(&[20, 8, 8, 8, 4, 4, 1, 1])];
+    b - s.below(10)
 }
 
 fn set_str(mask: u8) -> String {
@@ -71,8 +81,10 @@ fn render(c: &Case) -> String {
             Op::Invalidate(h) => format!("invalidate {}", NAMES[h as usize]),
         })
         .collect();
+    // (the prefix is only printed when present: cases rendered before it existed keep their text)
     format!(
-        "handles={} observe={} ops: {}",
+        "{}handles={} observe={} ops: {}",
+        if c.warm > 0 { format!("graph after {} unrelated warm-up insertions; ", c.warm) } else { String::new() },
         c.nh,
         if c.every_step { "is_proven-every-step" } else { "get_node-every-step" },
         ops.join("; ")
@@ -317,7 +329,9 @@ fn gen_random(s: &mut Src) -> Case {
             _ => {}
         }
     }
-    Case { nh, every_step, ops }
+    // drawn last (earlier encodings keep their meaning): one graph in four is not new
+    let warm = if s.chance(1, 6) { warm_count(s) } else { 0 };
+    Case { nh, every_step, ops, warm }
 }
 
 /// Exhaustive: `param = 10 * handles + length`. Every history of exactly `length`
@@ -354,7 +368,7 @@ fn gen_exh(s: &mut Src, param: u32) -> Case {
             ops.push(Op::Insert(h as u8, mask));
         }
     }
-    Case { nh, every_step: true, ops }
+    Case { nh, every_step: true, ops, warm: 0 }
 }
 
 // ---------------------------------------------------------------- oracle
@@ -524,6 +538,17 @@ fn diamond_below(dep: &[u8], nh: usize, root: usize) -> bool {
 fn execute(case: &Case, ctx: &mut Ctx) -> Verdict {
     let nh = case.nh;
     let mut g = ProofGraph::new();
+    for w in 0..case.warm {
+        let h = FactHandle::new(100_000 + w as u64);
+        let (premises, premise_keys) = if w % 3 == 1 { (vec![FactHandle::new(100_000 + w as u64 - 1)], vec![format!("Warm{}.derived", w - 1)]) } else { (vec![], vec![]) };
+        g.insert_proof(h, FactKey::from_pattern(&format!("Warm{}.derived", w)), "warm-up".to_string(), premises, premise_keys);
+        if w % 5 == 4 {
+            g.invalidate_handle(&h);
+        }
+    }
+    if case.warm > 0 {
+        ctx.label("graph-not-new(warm-up-insertions)");
+    }
     let mut m = Model::new(nh);
     let f1_at = find_f1_trigger(case).map(|t| t.2);
     let keys: Vec<FactKey> = (0..nh).map(key_of).collect();
